@@ -1184,11 +1184,16 @@ class Qube(object):
     def _new_values_(self):
         """Low-level method to indicate that values have changed.
 
-        This means "unshrunk" will be deleted from the cache if present.
+        This means "unshrunk" will be deleted from the cache if present. "wod"
+        is deleted too: it shares an array of values that was updated in place,
+        but not a single Python value, which an augmented assignment replaces.
         """
 
         if 'unshrunk' in self._cache_:
             del self._cache_['unshrunk']
+
+        if 'wod' in self._cache_:
+            del self._cache_['wod']
 
     def _set_mask_(self, mask, antimask=None, check=False):
         """Low-level method to update the mask of an array.
